@@ -200,3 +200,62 @@ def c14(ctx, replay):
                assumptions=["limit -1: every stream is consumed, so every error-kind fault is reached or preceded by another error",
                             "double Close and the error text are left open",
                             "a failure of only the second ContainerList call is model-checked but not replayed (the fake fails all or none)"])
+
+
+def _lq_nontrivial(scns):
+    # distinct (records, query) whose stages filter or rewrite something
+    seen = set()
+    for sid, lines in scns:
+        i = json.loads(lines[0])["in"]
+        if i["stages"] or i["sel"] or i.get("queries"):
+            seen.add(json.dumps([i["recs"], i["sel"], i["stages"], i.get("queries"), i["limit"]], sort_keys=True))
+    return len(seen)
+
+
+def _lq_models(ctx):
+    inv = ["ResultExact", "NoOpenInPools", "StagesWellFormed"]
+    mcs = [dict(name="lq-2x2", module="MC_LogQuery", consts=dict(MaxRec=2, MaxStages=2, Pools=V.tla_str("quick")), invariants=inv)]
+    if ctx.tier != "quick":
+        mcs.append(dict(name="lq-2x3", module="MC_LogQuery", consts=dict(MaxRec=2, MaxStages=3, Pools=V.tla_str("quick")), invariants=inv))
+        mcs.append(dict(name="lq-3x2", module="MC_LogQuery", consts=dict(MaxRec=3, MaxStages=2, Pools=V.tla_str("quick")), invariants=inv))
+        mcs.append(dict(name="lq-full", module="MC_LogQuery", consts=dict(MaxRec=1, MaxStages=2, Pools=V.tla_str("full")), invariants=inv))
+    return mcs
+
+
+@prop("C01")
+def c01(ctx, replay):
+    return std(ctx, "C01", mc=_lq_models(ctx), harness_cmd="logq", harness_opts=["mode=select"], trace_module="Trace_LogQuery",
+               trace_consts=dict(CheckStreams=False), nrand=T(ctx, 1500, 25000), replay=replay, nontrivial=_lq_nontrivial, exhaustive=True, chunk_events=20000,
+               rule="step 1: extractQueryConditions (offload split with barriers) + storage + entryIterator loop vs declarative "
+                    "LogResult for every record set (<=2-3 logfmt records with attributes), pipeline (<=2-3 stages from line "
+                    "filters with all four operators, string and number label filters, logfmt, distinct), selector, limit and "
+                    "capability set of the pools; every case is replayed through Engine.Eval over the in-memory storage under 6 "
+                    "capability configurations, plus seeded random cases (<=60 records, <=4 stages incl. nested and/or "
+                    "predicates, number/duration/bytes comparisons, generated regexes, drop/keep, arbitrary bytes) under 3 "
+                    "configurations each; non-trivial = distinct (records, query) with at least one stage or matcher",
+               assumptions=["number/duration/byte-size label values outside the modelled sub-grammars (Num.tla) make the scenario "
+                            "'open': then entries are not compared (only C19's relations apply)",
+                            "IP filters, json/regexp/pattern/unpack parsers and line_format are covered by C06/C07, not here",
+                            "mixed unparenthesised and/or chains are always parenthesised by the generators"])
+
+
+@prop("C08")
+def c08(ctx, replay):
+    inv = ["KeyInjective", "Partition", "TimeOrderInStream", "LimitHonoured"]
+    mcs = [dict(name="streams", module="MC_Streams", consts=dict(MaxRec=T(ctx, 3, 4), Pools=V.tla_str(T(ctx, "quick", "full")) if ctx.tier == "quick" else V.tla_str("quick")), invariants=inv)]
+    if ctx.tier != "quick":
+        mcs.append(dict(name="streams-full", module="MC_Streams", consts=dict(MaxRec=3, Pools=V.tla_str("full")), invariants=inv))
+    mcs += [m for m in _lq_models(ctx)[:1]]
+    mcs[-1] = dict(mcs[-1], export=False)
+    return std(ctx, "C08", mc=mcs, harness_cmd="logq", harness_opts=["mode=limit"], trace_module="Trace_LogQuery",
+               trace_consts=dict(CheckStreams=True), nrand=T(ctx, 2500, 40000), replay=replay, nontrivial=_lq_nontrivial,
+               exhaustive=True, chunk_events=20000,
+               rule="step 1: limit guard + groupEntries (map keyed by the sorted, quoted label rendering, per-stream time order) for "
+                    "every sequence of <=3-4 records (timestamp ties) whose attribute sets collide under an unquoted or unsorted key, "
+                    "x {no stage, drop, keep} x limit in {-1, 0, 1, N-1, N, N+1}; MC_LogQuery re-checks the limit prefix on the full "
+                    "engine loop; every case and seeded random ones (<=60 records, tricky values, logfmt+drop/keep, limits around N) run "
+                    "through Engine.Eval; TLC validates entries (= LogResult), stream partition (no two streams share a label set, each "
+                    "entry in the stream of exactly its labels, time order inside a stream) and the limit rule; non-trivial = distinct "
+                    "cases with a stage or a limit",
+               assumptions=["which records with the timestamp of the cut are returned, the order of streams and of equal timestamps "
+                            "inside a stream are left open", "strconv.Quote is modelled as escaping of quote and backslash only (step 1)"])
